@@ -9,7 +9,10 @@ def run(c):
                premise=["premise_quiescent"])
     sm.e2e(c, "c08", spec=["spec_e2e_prescribed"], premise=["premise_e2e_settled"], n_quick=25, n_thorough=400)
     c.assumptions += sm.ASSUMPTIONS + [
-        "C08_quiescent_children is evaluated as a monitor (spec_prescribed / spec_e2e_prescribed: the 10-line "
-        "specification `prescribed` = a_step/a_quiesce of Sup/Machine.v walks over every observed history) rather than "
-        "proved as one closed-loop theorem; the theorems cover every single decision of the machines for any state",
+        "C08_quiescent_children is a closed-loop theorem for one-for-one (exit histories), simple-one-for-one (StartChild + exit "
+        "histories) and all-for-one / rest-for-one (exit, foreign-exit and clock-shift histories through the Coq driver: "
+        "C08_quiescent_children_arfo_from_init proves the monitor spec_prescribed true on every run of the model allowed by env_ok); "
+        "for histories with StartChild/AddChild/EnableChild/DisableChild (OFO/ARFO) and failing spawns it is evaluated as a monitor "
+        "(spec_prescribed / spec_e2e_prescribed: the specification `prescribed` = a_step/a_quiesce of Sup/Machine.v walks over every "
+        "observed history); the theorems cover every single decision of the machines for any state",
     ]
